@@ -216,6 +216,16 @@ def run_case(col, case):
                 for _ in range(case["frames"]):
                     next(it)
                 it.set_padding(pad)
+            elif case["via"] == "resize":
+                # cached iterator: frame 0 cached at size A, another frame rendered at size B, then
+                # back to frame 0 at size A: a cache hit must still be padded for size A
+                it = L.render.RenderIterator(r, None, pad, 2, True)
+                next(it)
+                B = Size(1, 1) if (w, h) != (1, 1) else Size(2, 2)
+                it.set_render_size(B)
+                next(it)
+                it.seek(0)
+                it.set_render_size(Size(w, h))
             else:
                 it = L.render.RenderIterator(r, None, pad, 1, False)
             fr = next(it)
@@ -305,7 +315,7 @@ def build_cases(tier):
         for size in sizes:
             for fill in fills:
                 for term in terms:
-                    for via, frames in (("render", 1), ("iter", 2), ("iter2", 2), ("repad", 2)):
+                    for via, frames in (("render", 1), ("iter", 2), ("iter2", 2), ("repad", 2), ("resize", 2)):
                         for a in aligned:
                             if quick and (a[2], a[3]) not in ((0, 0), (1, 1), (2, 2), (0, 2)):
                                 continue
